@@ -33,8 +33,8 @@ func FieldSeps(bookOpts *tableaupb.WorkbookOptions, sheetOpts *tableaupb.Workshe
 	return confgen.VerifFieldSeps(sp, fd)
 }
 
-func RecordedBookOptions(header *options.HeaderOption) *tableaupb.WorkbookOptions {
-	return protogen.VerifRecordedBookOptions(header)
+func RecordedBookOptions(header *options.HeaderOption, bookOpts *tableaupb.WorkbookOptions) *tableaupb.WorkbookOptions {
+	return protogen.VerifRecordedBookOptions(header, bookOpts)
 }
 
 // ParseFieldValue parses one cell text for a field (xproto.ParseFieldValue).
